@@ -658,6 +658,92 @@ example : ∃ s s', reattach s 0 3 (some 2) = .ok s' ∧ genReattach 0 3 (some 2
   obtain ⟨s, s', _, _, h, _⟩ := witness_proxy_nic
   exact ⟨s, s', h, by rw [reattach_matches_source, h]; rfl⟩
 
+/-! ### `VMNetwork.integrate_node` -/
+
+/-- the inner `for netconfig in self.netconfigs.values(): if netconfig.can_add_interface(interface): …; break` is the
+    model's `findNc`: the first registered netconfig that accepts the interface, the exception of the first
+    `can_add_interface` that raises, the state untouched -/
+theorem findNc_matches_source (s : Net) (i : Nat) (l : List (Nat × Nat)) :
+    genFindNc i l s = (findNc s i l).map (fun o => (o, s)) := by
+  induction l with
+  | nil => rfl
+  | cons x rest ih =>
+    obtain ⟨k, n⟩ := x
+    simp only [genFindNc, findNc, genIntegrateTest, canAddM, canAdd_matches_source, bind, StateT.bind, Except.bind,
+      pure]
+    cases canAdd (s.nc n) i (s.iface i) with
+    | error e => rfl
+    | ok b => cases b <;> simp [ih, Except.map, pure, StateT.pure, Except.pure]
+
+/-- `new_netconfig()` followed by `from_interface(interface)` is the model's one step creation -/
+theorem newNetconfig_state (s : Net) (i : Nat) :
+    ({ s with nNc := s.nNc + 1, nc := fun m => if m = s.nNc then default else s.nc m } : Net).setNc s.nNc
+        (fun _ => fromInterface (s.iface i)) =
+      { s with nNc := s.nNc + 1, nc := fun m => if m = s.nNc then fromInterface (s.iface i) else s.nc m } := by
+  unfold Net.setNc
+  congr 1
+  funext m
+  by_cases h : m = s.nNc <;> simp [h]
+
+/-- `add_interface` does not change the network address of the netconfig -/
+theorem addInterface_netIp (s s2 : Net) (n i : Nat) (h : addInterface s n i = .ok s2) :
+    (s2.nc n).netIp = (s.nc n).netIp := by
+  unfold addInterface at h
+  simp only at h
+  split at h
+  · cases h
+  · cases h; simp [Net.setIface, Net.setNc]
+
+/-- the body of the second loop of `integrate_node` for one interface — the for/else over the registered netconfigs,
+    `add_interface` to the first that accepts it, otherwise a NEW netconfig made from the interface, `add_interface`,
+    and only then the registration under its network address — is the model's `place` -/
+theorem place_matches_source (s : Net) (i : Nat) : genPlace i s = (place s i).map (fun s' => ((), s')) := by
+  unfold genPlace place
+  simp only [registered, bind, StateT.bind, Except.bind, findNc_matches_source]
+  cases findNc s i s.reg with
+  | error e => rfl
+  | ok o =>
+    cases o with
+    | some n =>
+      simp only [Except.map, genIntegrateFound, addInterface_matches_source, bind, StateT.bind, Except.bind]
+      cases addInterface s n i <;> rfl
+    | none =>
+      simp only [Except.map, genIntegrateNew, newNetconfig, fromInterfaceM, registerNc, addInterface_matches_source,
+        bind, StateT.bind, Except.bind, newNetconfig_state]
+      cases hadd : addInterface ({ s with nNc := s.nNc + 1, nc := fun m => if m = s.nNc then fromInterface (s.iface i) else s.nc m } : Net) s.nNc i with
+      | error e => rfl
+      | ok s2 =>
+        have := addInterface_netIp _ s2 s.nNc i hadd
+        simp only [if_true] at this
+        simp only [this]
+        rfl
+
+theorem placeAll_matches_source (l : List Nat) : ∀ s : Net,
+    genPlaceAll l s = (placeAll s l).map (fun s' => ((), s')) := by
+  induction l with
+  | nil => intro s; rfl
+  | cons i rest ih =>
+    intro s
+    simp only [genPlaceAll, placeAll, bind, StateT.bind, Except.bind, place_matches_source]
+    cases place s i with
+    | error e => rfl
+    | ok s' => simp only [Except.map, ih]
+
+/-- `VMNetwork.integrate_node` (avocado_i2n/vmnet/network.py): the generated definition — pinned guards and first loop
+    (the new interface objects `first … first+count-1`), then for every interface the translated for/else over the
+    registered netconfigs — is the model's `integrateNode`, for every network state and every number of nics: same
+    final registry, same exception. -/
+theorem integrateNode_matches_source (s : Net) (first count : Nat) :
+    genIntegrateNode first count s = (integrateNode s first count).map (fun s' => ((), s')) :=
+  placeAll_matches_source _ s
+
+/-- a concrete run through both parts (a new netconfig, then a second interface added to it) -/
+example : ∃ s', integrateNode (init inpA) 0 2 = .ok s' ∧ genIntegrateNode 0 2 (init inpA) = .ok ((), s') := by
+  have h : isOk (integrateNode (init inpA) 0 2) = true := by decide +kernel
+  cases hi : integrateNode (init inpA) 0 2 with
+  | error e => rw [hi] at h; cases h
+  | ok s' => exact ⟨s', rfl, by rw [integrateNode_matches_source, hi]; rfl⟩
+
 end TranslatorTieNetwork
 
 end I2N.Props.C18
